@@ -900,6 +900,15 @@ func (*Context).evaluate
   ghost at loop 3 begin: gres = nil
   ghost at call 1 fn: gres = ret0
   ghost at loop 3 end: if code.T == typeCustomDice && ctx.Error == nil { ghostAssert(gres != nil && stack[e.top-1].TypeId == gres.TypeId && stack[e.top-1].Value == gres.Value); ghostAssert(len(details) > 0 ==> details[len(details)-1].Ret != gres && isFresh(details[len(details)-1].Ret)) }
+  ghost var gkTimes IntType = 0
+  ghost var gkMode IntType = 0
+  ghost var gkLow IntType = 0
+  ghost var gkHigh IntType = 0
+  ghost var gkMin *IntType = nil
+  ghost var gkMax *IntType = nil
+  ghost at loop 3 begin: if diceStateIndex >= 0 && diceStateIndex < len(diceStates) { gkTimes = diceStates[diceStateIndex].times; gkMode = diceStates[diceStateIndex].isKeepLH; gkLow = diceStates[diceStateIndex].lowNum; gkHigh = diceStates[diceStateIndex].highNum; gkMin = diceStates[diceStateIndex].min; gkMax = diceStates[diceStateIndex].max }
+  ghost at precall 1 RollCommon: ghostAssert(arg1 == gkTimes && arg5 == gkMode && arg6 == gkLow && arg7 == gkHigh && arg3 == gkMin && arg4 == gkMax)
+  ghost at loop 3 end: if ctx.Error == nil && glastT == VMTypeInt && diceStateIndex >= 0 && diceStateIndex < len(diceStates) { if code.T == typeDiceSetTimes { ghostAssert(diceStates[diceStateIndex].times == glastV.(IntType)) }; if code.T == typeDiceSetKeepLowNum { ghostAssert(diceStates[diceStateIndex].isKeepLH == 1 && diceStates[diceStateIndex].lowNum == glastV.(IntType)) }; if code.T == typeDiceSetKeepHighNum { ghostAssert(diceStates[diceStateIndex].isKeepLH == 2 && diceStates[diceStateIndex].highNum == glastV.(IntType)) }; if code.T == typeDiceSetDropLowNum { ghostAssert(diceStates[diceStateIndex].isKeepLH == 3 && diceStates[diceStateIndex].lowNum == glastV.(IntType)) }; if code.T == typeDiceSetDropHighNum { ghostAssert(diceStates[diceStateIndex].isKeepLH == 4 && diceStates[diceStateIndex].highNum == glastV.(IntType)) }; if code.T == typeDiceSetMin { ghostAssert(diceStates[diceStateIndex].min != nil && *diceStates[diceStateIndex].min == glastV.(IntType)) }; if code.T == typeDiceSetMax { ghostAssert(diceStates[diceStateIndex].max != nil && *diceStates[diceStateIndex].max == glastV.(IntType)) } }
   ghost var gdtext string = ""
   ghost var gdnum IntType = 0
   ghost at loop 3 begin: gdtext = ""; gdnum = 0
@@ -1108,6 +1117,15 @@ func (*VMValue).OpModulus
   ensures [C02] v.TypeId == VMTypeInt && v2.TypeId == VMTypeInt && old(v2.Value.(IntType)) != 0 ==> result != nil && result.TypeId == VMTypeInt && result.Value.(IntType) == old(v.Value.(IntType)) % old(v2.Value.(IntType)) && ctx.Error == old(ctx.Error)
   ensures [C02] v.TypeId == VMTypeInt && v2.TypeId == VMTypeInt && old(v2.Value.(IntType)) == 0 ==> result == nil && ctx.Error != nil
   ensures [C02] !(v.TypeId == VMTypeInt && v2.TypeId == VMTypeInt) ==> result == nil && ctx.Error == old(ctx.Error)
+
+func (*VMValue).OpPower
+  props C02 C01
+  requires v2 != nil
+  ensures [C02] v.TypeId == VMTypeInt && v2.TypeId == VMTypeInt ==> result != nil && result.TypeId == VMTypeInt && result.Value.(IntType) == IntType(math.Pow(float64(old(v.Value.(IntType))), float64(old(v2.Value.(IntType)))))
+  ensures [C02] v.TypeId == VMTypeInt && v2.TypeId == VMTypeFloat ==> result != nil && result.TypeId == VMTypeFloat && sameFloat(result.Value.(float64), math.Pow(float64(old(v.Value.(IntType))), old(v2.Value.(float64))))
+  ensures [C02] v.TypeId == VMTypeFloat && v2.TypeId == VMTypeInt ==> result != nil && result.TypeId == VMTypeFloat && sameFloat(result.Value.(float64), math.Pow(old(v.Value.(float64)), float64(old(v2.Value.(IntType)))))
+  ensures [C02] v.TypeId == VMTypeFloat && v2.TypeId == VMTypeFloat ==> result != nil && result.TypeId == VMTypeFloat && sameFloat(result.Value.(float64), math.Pow(old(v.Value.(float64)), old(v2.Value.(float64))))
+  ensures [C02] !((v.TypeId == VMTypeInt || v.TypeId == VMTypeFloat) && (v2.TypeId == VMTypeInt || v2.TypeId == VMTypeFloat)) ==> result == nil
 
 func (*VMValue).OpNullCoalescing
   props C02 C01
@@ -1372,6 +1390,43 @@ func funcDictItems
 func funcDictLen
   props C01 C02
   requires ctx != nil && this != nil && this.TypeId == VMTypeDict && len(params) == 0
+
+// ---- types.go: sub-VM calls charge the caller (C07) ----
+
+func NewVM
+  props C07 C06 C01
+  inline
+
+func (*Context).Init
+  props C07 C06 C01
+  inline
+
+func (*Context).Run
+  props C07 C01
+  noverify
+  ensures result == nil ==> ctx.Error == nil
+  ensures ctx.Error == nil ==> len(ctx.stack) == 1000 && 0 <= ctx.top && ctx.top <= 1000 && (ctx.top > 0 ==> wfValue(&ctx.stack[ctx.top-1]))
+
+func (*VMValue).FuncInvokeRaw
+  props C07 C06 C01
+  requires ctx != nil && v.TypeId == VMTypeFunction && 0 <= ctx.NumOpCount && ctx.NumOpCount <= math.MaxInt64 - 100
+  requires ctx.Attrs != nil
+  ghost at precall 1 vm.evaluate: ghostAssume(0 <= vm.codeIndex && vm.codeIndex <= len(vm.code) && forall(0, vm.codeIndex, func(k int) bool { return wfInstr(&vm.code[k], k, vm.codeIndex) }) && forall(0, vm.codeIndex, func(k int) bool { return implies(vm.code[k].T == typeDetailMark, 0 <= vm.code[k].Value.(BufferSpan).Begin && vm.code[k].Value.(BufferSpan).Begin <= vm.code[k].Value.(BufferSpan).End && vm.code[k].Value.(BufferSpan).End <= IntType(len(vm.parser.data))) }), "the cached code of a function body was compiled by this package's parser from cd.Expr (well-formed, detail spans rebased into the body text: C08)")
+  ensures [C07] result != nil ==> ctx.NumOpCount == vm.NumOpCount
+  ensures result == nil ==> ctx.Error != nil
+  loop 1
+    invariant vm != nil && vm.Attrs != nil && cd != nil && len(cd.Params) == len(params) && ctx != nil
+
+func (*Context).makeDetailStr
+  props C14 C01
+  noverify
+
+func (*VMValue).ComputedExecute
+  props C07 C06 C01
+  requires ctx != nil && v.TypeId == VMTypeComputedValue && 0 <= ctx.NumOpCount && ctx.NumOpCount <= math.MaxInt64 - 100
+  ghost at precall 1 vm.evaluate: ghostAssume(0 <= vm.codeIndex && vm.codeIndex <= len(vm.code) && forall(0, vm.codeIndex, func(k int) bool { return wfInstr(&vm.code[k], k, vm.codeIndex) }) && forall(0, vm.codeIndex, func(k int) bool { return implies(vm.code[k].T == typeDetailMark, 0 <= vm.code[k].Value.(BufferSpan).Begin && vm.code[k].Value.(BufferSpan).Begin <= vm.code[k].Value.(BufferSpan).End && vm.code[k].Value.(BufferSpan).End <= IntType(len(vm.parser.data))) }), "the cached code of a computed value was compiled by this package's parser from cd.Expr (well-formed, detail spans rebased into the expression text: C08)")
+  ensures [C07] result != nil ==> ctx.NumOpCount == vm.NumOpCount
+  ensures result == nil ==> ctx.Error != nil
 
 // ---- extension points (C17) ----
 
